@@ -171,7 +171,7 @@ func streamMarks(s *stream.Stream, c *streamCtx, corpus string) error {
 	var files []string
 	nFiles, k, singlesCap := 200, 3, 12
 	if c.thorough() {
-		nFiles, k, singlesCap = 1 << 30, 10, 40
+		nFiles, k, singlesCap = 1<<30, 10, 40
 	}
 	switch corpus {
 	case "stdlib":
